@@ -475,6 +475,9 @@ class SetModel:
             else:
                 nj = scen.key(self.kind, st["next"])
                 st["next"] += 1
+                used = [tp(j) for j in jwks] + [tp(j) for j in st["removed"]]
+                if tp(nj) in used:
+                    return out      # the pool of distinct fixture keys of this kind is exhausted: not a new key, skip
                 nk = A.jkey(nj, "dict")
                 nk.ensure_kid()
                 if op == "append-new":
